@@ -169,6 +169,10 @@ type session struct {
 	seenProcess, seenAdd int32
 	seenTx               int
 
+	patient bool // re-run of a session that diverged: every wait is eight times as long
+	tallyMu sync.Mutex
+	tally   map[string]int // every message received so far, by command
+
 	wanted        []byte // the requested block (payload of its block message)
 	blockCalls    int32
 	seenBlockCall int32
@@ -260,6 +264,12 @@ func (s *session) collect(nonce uint64, d time.Duration, out map[string]int) (po
 	for {
 		select {
 		case m := <-s.inbox:
+			s.tallyMu.Lock()
+			if s.tally == nil {
+				s.tally = map[string]int{}
+			}
+			s.tally[m.cmd]++
+			s.tallyMu.Unlock()
 			if m.cmd == "pong" && m.nonce == nonce {
 				return true, false
 			}
@@ -282,6 +292,35 @@ func (s *session) collect(nonce uint64, d time.Duration, out map[string]int) (po
 			return false, false
 		}
 	}
+}
+
+// awaitCmd waits until the node has sent at least n messages of the command (counted over the whole
+// session).  After version and verack the node's handshake goroutine asks its verification question
+// (a getheaders) on its own schedule: only then does a headers message count as the answer.
+func (s *session) awaitCmd(cmd string, n int, d time.Duration) bool {
+	deadline := time.Now().Add(d)
+	for {
+		s.tallyMu.Lock()
+		have := s.tally[cmd]
+		s.tallyMu.Unlock()
+		if have >= n {
+			return true
+		}
+		if time.Now().After(deadline) {
+			return false
+		}
+		if _, eof := s.collect(0, 5*time.Millisecond, map[string]int{}); eof {
+			return false
+		}
+	}
+}
+
+// d scales a wait: a session that diverged is run again, alone and patiently, before it is reported.
+func (s *session) d(x time.Duration) time.Duration {
+	if s.patient {
+		return 8 * x
+	}
+	return x
 }
 
 func (s *session) newTx() *wire.MsgTx {
@@ -454,7 +493,7 @@ func (s *session) run(behIdx int) []sessDiv {
 	}
 	// the node starts by sending version and one ping
 	init := map[string]int{}
-	deadline := time.Now().Add(2 * time.Second)
+	deadline := time.Now().Add(s.d(2 * time.Second))
 	for (init["version"] == 0 || !s.gotPing) && time.Now().Before(deadline) {
 		s.collect(0, 20*time.Millisecond, init)
 	}
@@ -499,12 +538,12 @@ func (s *session) run(behIdx int) []sessDiv {
 				s.trace[len(s.trace)-1] += "+ping"
 				data = append(append([]byte{}, data...), wireMessage(wire.NewMsgPing(bn))...)
 			}
-			sent = s.write(data, 2*time.Second)
+			sent = s.write(data, s.d(2*time.Second))
 		}
 		pong, eof := false, false
 		if sent {
 			if st.Msg == "ping" {
-				pong, eof = s.collect(nonce, time.Second, out)
+				pong, eof = s.collect(nonce, s.d(time.Second), out)
 				if pong {
 					out["pong"]++
 				}
@@ -512,25 +551,25 @@ func (s *session) run(behIdx int) []sessDiv {
 			// barrier
 			if !eof {
 				if coalesced {
-					pong, eof = s.collect(bn, time.Second, out)
-				} else if s.write(wireMessage(wire.NewMsgPing(bn)), 2*time.Second) {
-					pong, eof = s.collect(bn, time.Second, out)
+					pong, eof = s.collect(bn, s.d(time.Second), out)
+				} else if s.write(wireMessage(wire.NewMsgPing(bn)), s.d(2*time.Second)) {
+					pong, eof = s.collect(bn, s.d(time.Second), out)
 				} else {
 					pong = false
-					_, eof = s.collect(bn, 300*time.Millisecond, out)
+					_, eof = s.collect(bn, s.d(300*time.Millisecond), out)
 				}
 			}
 		} else {
-			_, eof = s.collect(0, 300*time.Millisecond, out)
+			_, eof = s.collect(0, s.d(300*time.Millisecond), out)
 		}
 		// the spec may expect asynchronous output of the handshake goroutine or of accept(): wait for it
 		want := normOut(st.Out)
-		waitUntil := time.Now().Add(500 * time.Millisecond)
+		waitUntil := time.Now().Add(s.d(500 * time.Millisecond))
 		for !eof && !subset(want, out) && time.Now().Before(waitUntil) {
 			_, eof = s.collect(0, 5*time.Millisecond, out)
 		}
 		if st.St.Closed && !eof {
-			_, eof = s.collect(0, 500*time.Millisecond, out)
+			_, eof = s.collect(0, s.d(500*time.Millisecond), out)
 		}
 
 		// ---- observations
@@ -549,7 +588,7 @@ func (s *session) run(behIdx int) []sessDiv {
 			if wantSinks["AddTx"] {
 				wantTx++
 			}
-			s.proc.waitTotal(wantTx, 300*time.Millisecond)
+			s.proc.waitTotal(wantTx, s.d(300*time.Millisecond))
 			s.proc.mu.Lock()
 			txs = s.proc.total - s.seenTx
 			s.seenTx = s.proc.total
@@ -569,7 +608,7 @@ func (s *session) run(behIdx int) []sessDiv {
 			gotSinks["AddTx"] = true
 		}
 		if wantSinks["BlockHandler"] {
-			for t := 0; t < 300 && atomic.LoadInt32(&s.blockCalls) == s.seenBlockCall; t++ {
+			for t := 0; t < int(s.d(300)) && atomic.LoadInt32(&s.blockCalls) == s.seenBlockCall; t++ {
 				time.Sleep(time.Millisecond)
 			}
 		}
@@ -598,7 +637,7 @@ func (s *session) run(behIdx int) []sessDiv {
 		}
 		if st.St.Closed && eof {
 			// the node clears its ready flag while it shuts down: give it a moment
-			for t := 0; t < 200 && s.node.IsReady(); t++ {
+			for t := 0; t < int(s.d(200)) && s.node.IsReady(); t++ {
 				time.Sleep(time.Millisecond)
 			}
 		}
@@ -677,6 +716,7 @@ func sessMain(args []string) int {
 		Trace []string `json:"trace"`
 	}
 	divs := []divOut{}
+	var again []job
 	var sample []string
 	var wg sync.WaitGroup
 	for i := 0; i < *workers; i++ {
@@ -693,16 +733,12 @@ func sessMain(args []string) int {
 				ds := s.run(j.idx)
 				s.close()
 				if len(ds) > 0 {
-					// one retry: a scheduling hiccup must not become an alarm
-					s2 := newSession(&beh, *seed*1000003+int64(j.idx), *big)
-					ds2 := s2.run(j.idx)
-					s2.close()
-					if len(ds2) == 0 {
-						ds = nil
-					} else {
-						ds = ds2
-						s = s2
-					}
+					// a scheduling hiccup must not become an alarm: the session is run again at the end,
+					// alone and with eight times longer waits; only a divergence that repeats is reported
+					mu.Lock()
+					again = append(again, j)
+					mu.Unlock()
+					ds = nil
 				}
 				mu.Lock()
 				n++
@@ -726,11 +762,28 @@ func sessMain(args []string) int {
 	err := behaviourLines(*in, "BEH", func(idx int, line string) { jobs <- job{idx, line} })
 	close(jobs)
 	wg.Wait()
+	reran := len(again)
+	for _, j := range again {
+		var beh sessBeh
+		if json.Unmarshal([]byte(j.line), &beh) != nil {
+			continue
+		}
+		s := newSession(&beh, *seed*1000003+int64(j.idx), *big)
+		s.patient = true
+		ds := s.run(j.idx)
+		s.close()
+		for _, d := range ds {
+			sigs[d.Sig]++
+			if len(divs) < 80 {
+				divs = append(divs, divOut{sessDiv: d, Line: j.line, Trace: s.trace})
+			}
+		}
+	}
 	if err != nil {
 		fmt.Fprintln(os.Stderr, err)
 		return 2
 	}
-	json.NewEncoder(os.Stdout).Encode(map[string]interface{}{"sessions": n, "steps": steps, "classes": classes,
+	json.NewEncoder(os.Stdout).Encode(map[string]interface{}{"sessions": n, "steps": steps, "classes": classes, "rerun_patiently": reran,
 		"signatures": sigs, "divergences": divs, "samples": sample})
 	return 0
 }
